@@ -251,6 +251,50 @@ def build():
     R.add("builder[one-rotation-per-step]", kind="bounded", bounded_only=True, samples=60,
           note="bounded: 60 sampled angles x 3 axes x {float, np.float64, np.float32} through Qubit.rot_*(angle=...) (the builder loop is a plain for over the proved step list)")(builder_steps)
 
+    # builder, modular: a rotation by a float angle emits exactly the steps get_angle_spec_from_float returns FOR THAT ANGLE,
+    # whatever was rotated before on the same connection (callee replaced by its contract: some list of encodable steps)
+    def builder_history(ctx):
+        from netqasm.lang.ir import GenericInstr
+        from netqasm.sdk.connection import DebugConnection
+        from netqasm.sdk.qubit import Qubit
+        from netqasm.sdk.shared_memory import SharedMemoryManager
+        from netqasm.sdk import builder as B
+        ax1 = ctx.choice("axis1", ["rot_X", "rot_Y", "rot_Z"])
+        ax2 = ctx.choice("axis2", ["rot_X", "rot_Y", "rot_Z"])
+        a1 = ctx.real("angle1", -10.0, 10.0)
+        if ctx.symbolic:
+            a2 = ctx.real("angle2", -10.0, 10.0)
+        else:
+            a2 = a1 + ctx.real("delta", -2e-4, 2e-4)        # nearby angles: the interesting histories
+        calls = []
+        if ctx.symbolic:
+            def spec_stub(it_, a, k):
+                i = len(calls)
+                steps = [(ctx.int(f"n{i}_{j}", 0, 255), ctx.int(f"d{i}_{j}", 0, 255)) for j in range(2)]
+                calls.append((a[0] if a else k.get("angle"), steps))
+                return list(steps)
+            ctx.it.stubs[B.get_angle_spec_from_float] = spec_stub
+            ctx.it.stubs[SP.get_angle_spec_from_float] = spec_stub
+        from .sdk_common import fresh_conn
+        conn = fresh_conn("Alice")
+        q = Qubit(conn)
+        gi = {"rot_X": GenericInstr.ROT_X, "rot_Y": GenericInstr.ROT_Y, "rot_Z": GenericInstr.ROT_Z}
+        for i, (ax, a) in enumerate(((ax1, a1), (ax2, a2))):
+            before = len(conn._builder._pending_commands)
+            ctx.call(getattr(q, ax), angle=a)
+            rots = [c for c in conn._builder._pending_commands[before:] if getattr(c, "instruction", None) in gi.values()]
+            if ctx.symbolic:
+                ctx.check(f"rotation {i + 1}: the decomposition is computed for THIS angle", len(calls) == i + 1 and ctx.truth(ctx.eq(calls[i][0], a)))
+                want = calls[i][1] if len(calls) == i + 1 else None
+            else:
+                want = SP.get_angle_spec_from_float(a)
+            ctx.check(f"rotation {i + 1}: one instruction per step, same axis, same operands, nothing from earlier rotations",
+                      want is not None and len(rots) == len(want) and all(c.instruction is gi[ax] and ctx.truth(ctx.eq(c.operands[1], n)) and ctx.truth(ctx.eq(c.operands[2], d))
+                                                                          for c, (n, d) in zip(rots, want)))
+        conn._builder._pending_commands = []
+        q._active = False
+    R.add("builder[each rotation uses the decomposition of its own angle, whatever came before]", kind="lia", samples=300, max_paths=200)(builder_history)
+
     def canary(ctx):
         it = ctx.it
         it.pow_uf = True
